@@ -7,7 +7,7 @@ use dashu_base::{
 use dashu_int::IBig;
 
 use crate::{
-    error::{assert_finite, assert_limited_precision},
+    error::{assert_finite, assert_limited_precision, panic_log_non_positive},
     fbig::FBig,
     repr::{Context, Repr, Word},
     round::{Round, Rounded},
@@ -225,6 +225,13 @@ impl<R: Round> Context<R> {
     fn ln_internal<const B: Word>(&self, x: &Repr<B>, one_plus: bool) -> Rounded<FBig<R, B>> {
         assert_finite(x);
         assert_limited_precision(self.precision);
+
+        // the argument of the logarithm (x, or 1 + x) must be positive
+        if (!one_plus && (x.is_zero() || x.sign() == Sign::Negative))
+            || (one_plus && *x <= Repr::neg_one())
+        {
+            panic_log_non_positive()
+        }
 
         if (one_plus && x.is_zero()) || (!one_plus && x.is_one()) {
             return Exact(FBig::ZERO);
